@@ -139,9 +139,46 @@ def section_s(draw):
 @st.composite
 def c18_s(draw, pid, tier, opts=None):
     nl = draw(st.integers(1, 4))
-    sections = [draw(section_s()) for _ in range(nl)]
-    if nl >= 2 and draw(st.integers(0, 4)) == 0:
-        sections[-1] = sections[-2]
+    sections = [draw(section_s())]
+    for _ in range(nl - 1):
+        k = draw(st.integers(0, 9))
+        prev = sections[-1]
+        if k < 4 or not prev:
+            sections.append(draw(section_s()))           # unrelated section
+        elif k == 4:
+            sections.append(prev)                        # identical reload
+        else:
+            # the previous section with small edits: destination list shortened / extended /
+            # reordered, severity expression changed, entry dropped or added
+            new = [[key, (list(d) if not isinstance(d, str) else d)] for key, d in prev]
+            for _e in range(draw(st.integers(1, 2))):
+                i = draw(st.integers(0, len(new) - 1))
+                e = draw(st.sampled_from(["shorten", "shorten", "extend", "single", "resev", "drop", "add", "swap"]))
+                key, d = new[i]
+                dl = [d] if isinstance(d, str) else list(d)
+                if e == "shorten" and len(dl) > 1:
+                    new[i][1] = dl[:-1] if draw(st.booleans()) else dl[1:]
+                elif e == "extend":
+                    extra = [f for f in ["file:" + x for x in FILES] if f not in dl]
+                    if extra:
+                        new[i][1] = dl + [draw(st.sampled_from(extra))]
+                elif e == "single":
+                    new[i][1] = dl[0]
+                elif e == "swap" and len(dl) > 1:
+                    new[i][1] = dl[::-1]
+                elif e == "resev":
+                    new[i][0] = key.split(".", 1)[0] + "." + draw(sevexpr_s())
+                elif e == "drop" and len(new) > 1:
+                    new.pop(i)
+                elif e == "add":
+                    new.extend(draw(section_s())[:1])
+            seen = set()
+            dedup = []
+            for key, d in new:
+                if key.lower() not in seen:
+                    seen.add(key.lower())
+                    dedup.append([key, d])
+            sections.append(dedup)
     return {"sections": sections}
 
 
